@@ -13,6 +13,7 @@ let table = [
   ("p2precv", Model.entry_p2precv);
   ("dispatch", Model.entry_dispatch);
   ("abi", Model.entry_abi);
+  ("adaptor", Model.entry_adaptor);
   ("firstevent", Model.entry_firstevent);
   ("sc", Model.entry_sc);
 ]
